@@ -54,17 +54,25 @@ inductive Cmd (F V Fr : Type) where
   | out : Ex F V Fr → Cmd F V Fr
   | seq : Cmd F V Fr → Cmd F V Fr → Cmd F V Fr
   | ite : Ex F V Fr → (V → Bool) → Cmd F V Fr → Cmd F V Fr → Cmd F V Fr
+  | rep : Ex F V Fr → (V → Nat) → Cmd F V Fr → Cmd F V Fr
 
 namespace Cmd
 variable {F V Fr : Type} [DecidableEq F]
 
-/-- execution: new field store and the list of emitted values -/
+/-- n-fold iteration of a step function, concatenating the outputs -/
+def iterExec (g : (F → V) → (F → V) × List V) : Nat → (F → V) → (F → V) × List V
+  | 0, s => (s, [])
+  | n + 1, s => ((iterExec g n (g s).1).1, (g s).2 ++ (iterExec g n (g s).1).2)
+
+/-- execution: new field store and the list of emitted values; `rep e cnt b` runs `b` as many times as
+    `cnt` says of the value of `e` on entry (a loop whose trip count depends on what was read) -/
 def exec : Cmd F V Fr → (F → V) → Fr → (F → V) × List V
   | skip, s, _ => (s, [])
   | set f e, s, fr => (fun g => if g = f then e.eval s fr else s g, [])
   | out e, s, fr => (s, [e.eval s fr])
   | seq a b, s, fr => ((b.exec (a.exec s fr).1 fr).1, (a.exec s fr).2 ++ (b.exec (a.exec s fr).1 fr).2)
   | ite c p a b, s, fr => if p (c.eval s fr) then a.exec s fr else b.exec s fr
+  | rep e cnt b, s, fr => iterExec (fun t => b.exec t fr) (cnt (e.eval s fr)) s
 
 /-- fields the command may write -/
 def writes : Cmd F V Fr → List F
@@ -73,6 +81,7 @@ def writes : Cmd F V Fr → List F
   | out _ => []
   | seq a b => a.writes ++ b.writes
   | ite _ _ a b => a.writes ++ b.writes
+  | rep _ _ b => b.writes
 
 /-- fields the command writes on every path (kill set) -/
 def kills : Cmd F V Fr → List F
@@ -81,6 +90,7 @@ def kills : Cmd F V Fr → List F
   | out _ => []
   | seq a b => a.kills ++ b.kills
   | ite _ _ a b => a.kills.filter (fun f => f ∈ b.kills)
+  | rep _ _ _ => []
 
 /-- fields whose incoming value may be read before the command has written them -/
 def exposed : Cmd F V Fr → List F
@@ -89,6 +99,26 @@ def exposed : Cmd F V Fr → List F
   | out e => e.reads
   | seq a b => a.exposed ++ b.exposed.filter (fun f => f ∉ a.kills)
   | ite c _ a b => c.reads ++ a.exposed ++ b.exposed
+  | rep e _ b => e.reads ++ b.exposed
+
+omit [DecidableEq F] in
+theorem iterExec_frame (g : (F → V) → (F → V) × List V) (f : F) (hg : ∀ s, (g s).1 f = s f) (n : Nat)
+    (s : F → V) : (iterExec g n s).1 f = s f := by
+  induction n generalizing s with
+  | zero => rfl
+  | succ n ih => simp only [iterExec]; rw [ih, hg]
+
+omit [DecidableEq F] in
+theorem iterExec_congr (g : (F → V) → (F → V) × List V) (X : F → Prop)
+    (hg : ∀ s s', (∀ f, X f → s f = s' f) → (g s).2 = (g s').2 ∧ ∀ f, X f → (g s).1 f = (g s').1 f)
+    (n : Nat) (s s' : F → V) (hs : ∀ f, X f → s f = s' f) :
+    (iterExec g n s).2 = (iterExec g n s').2 ∧ ∀ f, X f → (iterExec g n s).1 f = (iterExec g n s').1 f := by
+  induction n generalizing s s' with
+  | zero => exact ⟨rfl, hs⟩
+  | succ n ih =>
+    obtain ⟨o, st⟩ := hg s s' hs
+    obtain ⟨o2, st2⟩ := ih (g s).1 (g s').1 st
+    exact ⟨by simp only [iterExec]; rw [o, o2], by simpa only [iterExec] using st2⟩
 
 /-- frame rule: a field outside the may-write set keeps its value -/
 theorem exec_frame (c : Cmd F V Fr) (s : F → V) (fr : Fr) (f : F) (h : f ∉ c.writes) :
@@ -111,6 +141,10 @@ theorem exec_frame (c : Cmd F V Fr) (s : F → V) (fr : Fr) (f : F) (h : f ∉ c
     split
     · exact iha _ ha
     · exact ihb _ hb
+  | rep e cnt b ih =>
+    have hb : f ∉ b.writes := by simpa [writes] using h
+    simp only [exec]
+    exact iterExec_frame _ f (fun t => ih t hb) _ s
 
 /-- soundness of the exposed-read / kill analysis: two stores that agree on a set `X` containing the
     exposed reads give the same outputs, and the resulting stores agree on `X` and on every killed field -/
@@ -179,6 +213,18 @@ theorem exec_congr (c : Cmd F V Fr) (X : F → Prop) (s s' : F → V) (fr : Fr)
       cases hf with
       | inl h => exact Or.inl h
       | inr h => exact Or.inr (by simp [kills] at h; exact h.2)
+  | rep e cnt b ih =>
+    have he : e.eval s fr = e.eval s' fr :=
+      Ex.eval_congr e s s' fr (fun f hf => hs f (hx f (by simp [exposed, hf])))
+    have hxb : ∀ f, f ∈ b.exposed → X f := fun f hf => hx f (by simp [exposed, hf])
+    simp only [exec, he]
+    have := iterExec_congr (fun t => b.exec t fr) X
+      (fun t t' ht => ⟨(ih X t t' hxb ht).1, fun f hf => (ih X t t' hxb ht).2 f (Or.inl hf)⟩)
+      (cnt (e.eval s' fr)) s s' hs
+    refine ⟨this.1, fun f hf => ?_⟩
+    cases hf with
+    | inl h => exact this.2 f h
+    | inr h => simp [kills] at h
 
 /-- run a command once per frame on one object, threading the field store -/
 def runFrames (c : Cmd F V Fr) : (F → V) → List Fr → List (List V)
@@ -220,6 +266,32 @@ theorem run_eq_map_aux (c : Cmd F V Fr) (h : Refines c) (s0 s : F → V)
 theorem run_eq_map (c : Cmd F V Fr) (h : Refines c) (s0 : F → V) (fs : List Fr) :
     runFrames c s0 fs = fs.map (frameFn c s0) :=
   run_eq_map_aux c h s0 s0 (fun _ _ => rfl) fs
+
+/-- leaky fields that are *stationary*: if from every state that agrees with `s0` on the configuration and
+    on the leaky fields the step leaves the leaky fields as they are in `s0` (a cache that is already filled
+    and is refilled with the same value), then from `s0` on the run is a `map` -/
+theorem run_eq_map_of_stationary (c : Cmd F V Fr) (s0 : F → V)
+    (hstat : ∀ s fr, (∀ f, (f ∉ c.writes ∨ f ∈ leaky c) → s f = s0 f) →
+      ∀ f, f ∈ leaky c → (c.exec s fr).1 f = s0 f)
+    (fs : List Fr) : runFrames c s0 fs = fs.map (frameFn c s0) := by
+  suffices h : ∀ s, (∀ f, (f ∉ c.writes ∨ f ∈ leaky c) → s f = s0 f) →
+      runFrames c s fs = fs.map (frameFn c s0) from h s0 (fun _ _ => rfl)
+  induction fs with
+  | nil => intro s _; rfl
+  | cons fr rest ih =>
+    intro s hs
+    simp only [runFrames, List.map_cons]
+    have hx : ∀ f, f ∈ c.exposed → (f ∉ c.writes ∨ f ∈ leaky c) := by
+      intro f hf
+      by_cases hw : f ∈ c.writes
+      · exact Or.inr (by simp [leaky, hf, hw])
+      · exact Or.inl hw
+    have hc := exec_congr c (fun f => f ∉ c.writes ∨ f ∈ leaky c) s s0 fr hx hs
+    rw [ih (c.exec s fr).1 (fun f hf => by
+      cases hf with
+      | inl h => rw [exec_frame c s fr f h]; exact hs f (Or.inl h)
+      | inr h => exact hstat s fr hs f h)]
+    simp only [frameFn, hc.1]
 
 end Cmd
 
@@ -295,7 +367,8 @@ def pad8 (n : Nat) : Nat := (n + 7) / 8 * 8
       sample; decoder.convertToPixels: w·h·comps bytes;
     * jpeg/extended/codec.go: BitsStored > 12 rejected; bitDepth := 8 if BitsStored ≤ 8 else 12; the 12-bit
       coder takes one component only and returns 2 bytes per sample; the 8-bit path is image/jpeg:
-      DecodeSimple copies `image.Gray.Pix` whole (stride and rows are multiples of 8), RGB is repacked;
+      DecodeSimple copies the rows of `image.Gray` tightly (since fix 5946dc5; before, `Pix` was copied
+      whole, with stride and rows padded to multiples of 8), RGB is repacked;
     * jpeg/lossless, lossless14sv1: Encode(..., int(BitsStored), ...); samplesToPixels/convertToPixels:
       (precision+7)/8 bytes per sample;
     * jpegls/lossless, nearlossless: BitsStored ∈ 2..16 passed as depth; integersToPixels: 1 byte if ≤ 8 else 2;
@@ -309,7 +382,7 @@ def decodedLen (k : Kind) (i : Info) : Option Nat :=
   | .extended =>
     if i.bs > 12 then none
     else if i.bs ≤ 8 then
-      (if i.spp = 1 then some (pad8 i.w * pad8 i.h) else some (i.w * i.h * 3))
+      (if i.spp = 1 then some (i.w * i.h) else some (i.w * i.h * 3))
     else (if i.spp = 1 then some (i.w * i.h * 2) else none)
   | .jpegll => some (i.w * i.h * i.spp * ((i.bs + 7) / 8))
   | .jls => if i.bs < 2 ∨ i.bs > 16 then none else some (i.w * i.h * i.spp * (if i.bs ≤ 8 then 1 else 2))
